@@ -11,7 +11,8 @@
 //	       LimiterStore (wrappers.go)
 //	conc   concurrent histories judged by porcupine (lin.go), over-capacity
 //	       concurrent runs (evict.go), the no-global-lock monitor and the
-//	       concurrent-Clear monitor (nolock.go); run at several GOMAXPROCS
+//	       concurrent-Clear monitor (nolock.go), the lock-nesting monitor and the
+//	       tiny-capacity deadlock monitor (nest.go); run at several GOMAXPROCS
 package main
 
 import (
@@ -60,6 +61,10 @@ func main() {
 		phaseSeq(c)
 	case "conc":
 		phaseConc(c)
+	case "locks": // development aid: only the monitors of nest.go
+		phaseLocks(c)
+	case "evict": // development aid: only the over-capacity runs
+		phaseEvict(c, false)
 	default:
 		parent(c)
 	}
@@ -166,10 +171,20 @@ func parent(c *ctx) {
 	r.Require("nolock_ops_completed_under_held_lock", 50)
 	r.Require("nolock_same_segment_writer_blocked", 5)
 	r.Require("nolock_evicting_cases", 3)
+	r.Require("nest_writer_parked_on_held_segment", 30)
+	r.Require("nest_own_segment_ops_completed_behind_parked_writer", 200)
+	r.Require("nest_third_segment_ops_completed_behind_parked_writer", 100)
+	r.Require("nest_segments_read_behind_parked_writer", 2000)
+	r.Require("nest_writer_still_parked_after_ops", 30)
+	r.Require("nest_writer_finished_after_release", 30)
+	r.Require("nest_walk_wrapped_whole_ring", 5)
+	r.Require("tiny_runs", 20)
+	r.Require("tiny_inserts_completed", 100000)
 	r.Require("conc_clear_runs", 4)
 	r.Require("children_completed", 4)
 	r.Assume("the Go race detector and porcupine v1.3.0 are trusted")
 	r.Assume("CLOCK_MONOTONIC is consistent across CPUs (call/return stamps come from time.Since of one base instant)")
+	r.Assume("runtime.Stack reports a goroutine blocked in sync.(*RWMutex).Lock/RLock with a sync.* wait state (that state, not elapsed time, establishes 'the spilling writer is parked' and 'every writer is blocked')")
 	r.Assume("the 'no global lock' clause is decided only as: operations on another segment complete while the harness holds one segment's write lock; ratelimit.LimiterStore is a single-mutex map by documented design and is exempt from that clause")
 }
 
@@ -365,40 +380,9 @@ func phaseConc(c *ctx) {
 	close(checkCh)
 	defer cwg.Wait() // the checker finishes behind the remaining phases
 
-	// (3) over capacity
-	nEv := r.N(14, 240)
-	for i := 0; i < nEv; i++ {
-		if !c.mine(i, nEv) {
-			continue
-		}
-		res := runEvict(c, i)
-		p := res.params
-		r.Eval(1)
-		r.Count("evict_runs", 1)
-		r.Count("evict_reads_judged", res.reads)
-		r.Count("evict_mutations", res.stores)
-		r.Count("evict_len_samples", res.lenSamples)
-		r.Count("evict_len_samples_above_capacity", res.lenOverCap)
-		r.Count("evictions_observed", res.evicted)
-		r.Count("evict_cas_ok", res.casOK)
-		r.Count("evict_cad_ok", res.cadOK)
-		if res.wrapped > 0 {
-			r.Count("evict_runs_ending_with_wrapped_chain", 1)
-		}
-		if res.grewTo > 8 {
-			r.Count("evict_runs_with_segment_growth", 1)
-		}
-		r.Max("evict_max_len_minus_capacity", res.lenMax-int64(p.Capacity))
-		r.Max("evict_max_writers", int64(p.Writers))
-		r.Distinct(fmt.Sprintf("evict/%d", i))
-		if i < 2 {
-			r.Sample(map[string]any{"phase": "evict", "capacity": p.Capacity, "writers": p.Writers, "readers": p.Readers, "universe": p.Universe, "max_sampled_len": res.lenMax, "final_len": res.finalLen, "reads_judged": res.reads, "evicted_at_quiescence": res.evicted})
-		}
-		if res.fail != nil {
-			r.Violation(res.fail.sig, fmt.Sprintf("over-capacity run %d (capacity %d, %d writers, %d readers, %s keys): %s", i, p.Capacity, p.Writers, p.Readers, p.Class, res.fail.what), res.failCase)
-		}
-		r.Progress("evict #%d", i)
-	}
+	lockTrouble := phaseLocks(c)
+
+	phaseEvict(c, lockTrouble)
 
 	// (4) no global lock
 	nNL := r.N(24, 400)
@@ -462,6 +446,137 @@ func phaseConc(c *ctx) {
 	}
 }
 
+// phaseLocks runs the lock-nesting and the tiny-capacity deadlock monitors
+// (nest.go); true = a violation was found (nested locks can hang later phases).
+func phaseLocks(c *ctx) bool {
+	r := c.r
+	// (3a) lock nesting: operations behind a spilling writer that is parked on a
+	// held segment (nest.go). Runs before the over-capacity phases: a tree with
+	// nested segment locks can hang those for good.
+	lockTrouble := false
+	nNest := r.N(45, 900)
+	for i := 0; i < nNest; i++ {
+		if !c.mine(i, nNest) {
+			continue
+		}
+		res := runNest(c, i)
+		r.Eval(1)
+		r.Count("nest_cases", 1)
+		r.Count("nest_cases_"+res.cs.Table, 1)
+		r.Count("nest_cases_"+res.cs.Variant, 1)
+		if res.parked {
+			r.Count("nest_writer_parked_on_held_segment", 1)
+			r.DistinctIn("nest_shapes", fmt.Sprintf("%s/%d/%s/%d", res.cs.Table, res.cs.Capacity, res.cs.Variant, res.cs.Distance))
+			if res.cs.Distance == res.cs.Segments-1 {
+				r.Count("nest_walk_wrapped_whole_ring", 1)
+			}
+		}
+		if res.notParked {
+			r.Count("nest_writer_finished_without_waiting", 1)
+		}
+		r.Count("nest_own_segment_ops_completed_behind_parked_writer", res.ownDone)
+		r.Count("nest_third_segment_ops_completed_behind_parked_writer", res.thirdDone)
+		r.Count("nest_inserts_gated_out_over_capacity", res.gated)
+		r.Count("nest_segments_read_behind_parked_writer", res.sweepDone)
+		if res.stillHeld {
+			r.Count("nest_writer_still_parked_after_ops", 1)
+		}
+		if res.resumed {
+			r.Count("nest_writer_finished_after_release", 1)
+		}
+		if i < 1 && c.lo == 0 && res.parked {
+			r.Sample(map[string]any{"phase": "nest", "table": res.cs.Table, "capacity": res.cs.Capacity, "segments": res.cs.Segments, "writer_segment": res.cs.OwnSeg, "held_segment": res.cs.HeldSeg, "own_ops_done": res.ownDone, "third_ops_done": res.thirdDone})
+		}
+		if res.inconc != "" {
+			r.Inconclusive(res.inconc)
+		}
+		if res.fail != nil {
+			lockTrouble = true
+			r.Violation(res.fail.sig, res.fail.what, res.cs)
+			r.Count("nest_cases_skipped_after_violation", nNest-i-1)
+			break // each blocked operation costs the full (generous) wait
+		}
+	}
+
+	// (3b) tiny-capacity writers: frozen progress + every writer on a mutex = deadlock
+	nTiny := r.N(30, 360)
+	for i := 0; i < nTiny; i++ {
+		if !c.mine(i, nTiny) {
+			continue
+		}
+		res := runTiny(c, i)
+		r.Eval(1)
+		r.Count("tiny_runs", 1)
+		r.Count("tiny_runs_"+res.cs.Table, 1)
+		r.Count("tiny_inserts_completed", int(res.adds))
+		r.Max("tiny_max_writers", int64(res.cs.Writers))
+		if res.overCap {
+			r.Count("tiny_runs_ending_above_capacity_not_judged", 1)
+		}
+		if res.inconc != "" {
+			r.Inconclusive(res.inconc)
+		}
+		if res.fail != nil {
+			lockTrouble = true
+			r.Violation(res.fail.sig, res.fail.what, res.cs)
+			r.Count("tiny_runs_skipped_after_violation", nTiny-i-1)
+			break
+		}
+		r.Progress("tiny #%d", i)
+	}
+	return lockTrouble
+}
+
+// phaseEvict: over-capacity concurrent runs (evict.go).
+func phaseEvict(c *ctx, lockTrouble bool) {
+	r := c.r
+	// (3) over capacity
+	nEv := r.N(14, 240)
+	for i := 0; i < nEv; i++ {
+		if !c.mine(i, nEv) {
+			continue
+		}
+		if lockTrouble {
+			// the over-capacity runs have no deadlock guard of their own
+			r.Count("evict_runs_skipped_after_lock_violation", 1)
+			continue
+		}
+		res := runEvict(c, i)
+		p := res.params
+		r.Eval(1)
+		r.Count("evict_runs", 1)
+		r.Count("evict_reads_judged", res.reads)
+		r.Count("evict_mutations", res.stores)
+		r.Count("evict_len_samples", res.lenSamples)
+		r.Count("evict_len_samples_above_capacity", res.lenOverCap)
+		r.Count("evictions_observed", res.evicted)
+		r.Count("evict_cas_ok", res.casOK)
+		r.Count("evict_cad_ok", res.cadOK)
+		if res.wrapped > 0 {
+			r.Count("evict_runs_ending_with_wrapped_chain", 1)
+		}
+		if res.grewTo > 8 {
+			r.Count("evict_runs_with_segment_growth", 1)
+		}
+		r.Max("evict_max_len_minus_capacity", res.lenMax-int64(p.Capacity))
+		r.Max("evict_max_writers", int64(p.Writers))
+		r.Distinct(fmt.Sprintf("evict/%d", i))
+		if i < 2 {
+			r.Sample(map[string]any{"phase": "evict", "capacity": p.Capacity, "writers": p.Writers, "readers": p.Readers, "universe": p.Universe, "max_sampled_len": res.lenMax, "final_len": res.finalLen, "reads_judged": res.reads, "evicted_at_quiescence": res.evicted})
+		}
+		if res.inconc != "" {
+			r.Inconclusive(res.inconc)
+		}
+		if res.fail != nil {
+			r.Violation(res.fail.sig, fmt.Sprintf("over-capacity run %d (capacity %d, %d writers, %d readers, %s keys): %s", i, p.Capacity, p.Writers, p.Readers, p.Class, res.fail.what), res.failCase)
+			if res.fail.sig == "deadlock/over-capacity-run" {
+				lockTrouble = true // every further frozen run would cost the whole window again
+			}
+		}
+		r.Progress("evict #%d", i)
+	}
+}
+
 // ---------------------------------------------------------------- replay
 
 func replay(c *ctx, raw json.RawMessage) {
@@ -520,6 +635,29 @@ func replay(c *ctx, raw json.RawMessage) {
 		r.Eval(1)
 		if res.fail != nil {
 			r.Violation(res.fail.sig, res.fail.what, res.cs)
+		}
+	case "nest":
+		var nc nestCase
+		if err := json.Unmarshal(raw, &nc); err != nil {
+			r.Fatalf("replay: %v", err)
+		}
+		res := execNest(c, nc.Index) // the case is a function of (seed, index)
+		r.Eval(1)
+		if res.fail != nil {
+			r.Violation(res.fail.sig, res.fail.what, res.cs)
+		}
+	case "tiny":
+		var tc tinyCase
+		if err := json.Unmarshal(raw, &tc); err != nil {
+			r.Fatalf("replay: %v", err)
+		}
+		for i := 0; i < 5; i++ { // same key scripts, a new schedule each time
+			res := runTiny(c, tc.Index)
+			r.Eval(1)
+			if res.fail != nil {
+				r.Violation(res.fail.sig, res.fail.what, res.cs)
+				break
+			}
 		}
 	case "clear":
 		var cc clearCase
